@@ -696,10 +696,12 @@ func runC04(e *Engine, r *Report, tier string) {
 	r.Rule("R6", "refund amount, fee-increase amount and token, cancel target, no timeout refund of a call whose result is parked (C05.R2/R3/R5/R8)", 6, "C05 obligations")
 	r.Rule("R9", "an observed event's effects (mint / release) are applied once: apply-once dispatch and parked claims executed once (C01.R2/R5)", 4, "C01 obligations")
 	r.Rule("R10", "results of immutable Int/Dec/Coin arithmetic are used (an amount that is added or subtracted with the result dropped is lost from the books)", 1, "")
+	r.Rule("R11", "no update is written into a struct copy that nobody reads (a range variable over a slice of struct values): an amount merged into it is lost", 1, "")
 	r.Assume("A1: the token pair stored for a base denom has owner MODULE or EXTERNAL (x/erc20 RegisterNativeCoin / RegisterNativeERC20 are the only writers)")
 	r.Assume("A2: FX has no alias denominations: the bridge denom of FX is FX (types/metadata.go GetFXMetaData carries no aliases; ManyToOne returns FX for FX)")
 
 	e.ruleDiscardedArithmetic(r, "R10", "/x/crosschain", "/x/erc20", "/x/ibc", "/x/evm")
+	e.ruleLostStructWrites(r, "R11", "/x/crosschain", "/x/erc20", "/x/ibc", "/x/evm")
 
 	// ---------- collect value routines ----------
 	var routines []*valueRoutine
